@@ -93,7 +93,7 @@ func vStatsEq(s *Statistics, a *vAgg, chunks int, label string) {
 func VC08Stats() {
 	tpl, ln, pn := vParam("tpl"), vParam("ln"), vParam("pn")
 	cfg, skip, cs := vParam("cfg"), vParam("skip"), vParam("cs")
-	wl := vMakeWorkload(tpl, ln, pn, 0)
+	wl := vMakeWorkload(tpl, ln, pn, vParam("idv")) // idv=1: schema/channel ids 65535 and 0
 	opts := vOptions(cfg, skip, int64(cs))
 	w, file := vWriteAll(wl, opts)
 	agg := vAggregate(wl)
